@@ -337,12 +337,13 @@ def run(ctx):
         ctx.notes.append(f"{sum(outside.values())} of {n_eq} Core pairs are outside the verified fragment (validate rejects, the structural comparison accepts): {dict(outside)}")
     ctx.violations.sort(key=lambda v: len(v[2].get("src") or "x" * 10**6))
     if ctx.replay:
-        try:
-            want = json.load(open(ctx.replay)).get("signature")
+        # vlib.Ctx has read the signature (and cleared replays/, where the file usually lives) before the run
+        want = ctx.replay_signature
+        if want is None:
+            ctx.broken_ties.append(("replay file", f"{ctx.replay}: not readable or without a signature"))
+        else:
             ctx.violations = [v for v in ctx.violations if v[0] == want]
             ctx.notes.append(f"replay: the whole seeded run is repeated; only violations with signature {want} are reported")
-        except Exception as e:
-            ctx.broken_ties.append(("replay file", str(e)))
     cov = {
         "evaluations": n_orders, "distinct_nontrivial": len(distinct) + n_both_err,
         "rule": "one evaluation = one project built separately in one topological order (check + build of every package, artefacts written to and "
